@@ -343,18 +343,44 @@ example : cget (wordsPerLine (W := Nat) ⟨id, fun _ => true, fun _ => false, fu
 /-! ## the per-document table -/
 
 /-- **The column check holds in general.** For every list of line-width boundary points, with or
-    without stop words, and every `max_word_length` that is a positive multiple of the bin size 5
-    (default 30): every row of `get_doc_stats` names exactly the columns `_init_doc_stats` created,
-    each once. -/
-theorem C20_cfg_ok (cfg : DocCfg) (h5 : cfg.maxLen % 5 = 0) (hpos : 0 < cfg.maxLen) : cfgOk cfg = true := by
-  obtain ⟨bps, us, ml⟩ := cfg
-  simp only at h5 hpos
-  have e : ml = 5 * ((ml / 5 - 1) + 1) := by omega
+    without stop words, every bin size `s > 0` that reaches both `_init_doc_stats` and `get_word_cat_stats`,
+    and every `max_word_length` that is a positive multiple of `s`: every row of `get_doc_stats` names exactly
+    the columns `_init_doc_stats` created, each once (and the bin range of `_init_doc_stats` does not raise). -/
+theorem C20_cfg_ok (cfg : DocCfg) (hs : 0 < cfg.wordSize) (he : cfg.initSize = cfg.wordSize)
+    (hm : cfg.maxLen % cfg.wordSize = 0) (hpos : 0 < cfg.maxLen) : cfgOk cfg = true := by
+  obtain ⟨bps, us, ml, si, sw⟩ := cfg
+  simp only at hs he hm hpos
+  subst he
+  obtain ⟨q, hq⟩ := Nat.dvd_of_mod_eq_zero hm
+  have hq0 : q ≠ 0 := by
+    intro h0; rw [h0, Nat.mul_zero] at hq; omega
+  have e : ml = si * ((q - 1) + 1) := by
+    rw [hq]; congr 1; omega
   rw [e]
-  exact cfgOk_of_multiple bps us (ml / 5 - 1)
+  exact cfgOk_of_multiple bps us si hs (q - 1)
+
+/-- **The configurations of the code.** `get_doc_stats` called with any boundary points (or none, with a
+    `line_bin_width` that is not 0 — the default is not), with or without stop words, and with a
+    `max_word_length` (or none: the default) that is a positive multiple of the bin size the source uses:
+    the call has a configuration, and it passes the column check.  The only facts used about the source's
+    numbers are `consts_bin_sizes_agree` and `consts_bin_size_pos`. -/
+theorem C20_cfg_ok_code (bps : Option (List Int)) (useStop : Bool) (maxLen : Option Nat) (lbw mb : Option Int)
+    (hb : bps.isSome ∨ lbw.getD lineBinWidth ≠ 0)
+    (hm : (maxLen.getD defaultMaxLen) % wordBinSize = 0) (hpos : 0 < maxLen.getD defaultMaxLen) :
+    ∃ cfg, docCfgOf bps useStop maxLen lbw mb = .ok cfg ∧ cfgOk cfg = true := by
+  obtain ⟨b, hcfg⟩ := docCfgOf_ok bps useStop maxLen lbw mb hb
+  exact ⟨_, hcfg, C20_cfg_ok _ consts_bin_size_pos consts_bin_sizes_agree hm hpos⟩
+
+/-- **The default configuration** (`get_doc_stats(docs)`, with or without stop words) passes the column
+    check: `consts_line_bin_width_ne_zero` and `consts_default_max_len_ok` on top of the two above. -/
+theorem C20_cfg_ok_default (useStop : Bool) :
+    ∃ cfg, docCfgOf none useStop none none none = .ok cfg ∧ cfgOk cfg = true :=
+  C20_cfg_ok_code none useStop none none none (Or.inr consts_line_bin_width_ne_zero)
+    consts_default_max_len_ok.2 consts_default_max_len_ok.1
 
 /-- **Document statistics.** For every configuration that passes the column check `cfgOk` (by
-    `C20_cfg_ok`: every boundary list, every `max_word_length` that is a positive multiple of 5)
+    `C20_cfg_ok`: every boundary list, every bin size, every `max_word_length` that is a positive multiple of
+    the bin size; by `C20_cfg_ok_code`: the calls of the code)
     and all document lists `ds₁`, `ds₂`:
     `get_doc_stats` succeeds on `ds₁ ++ ds₂`, `ds₁` and `ds₂`; the three tables have the same
     columns; every column other than the positional `doc_num` is the concatenation of the columns
@@ -371,7 +397,10 @@ theorem C20_doc_stats_concat {T W : Type} (ops : TextOps T W) (cls : WordClass W
       (∀ j, j < numElems →
         getCol t (Col.elem j) = (ds1 ++ ds2).map (fun d => Val.int ((d.elems.getD j none).getD 0))) ∧
       getCol t Col.docNum = (List.range (ds1 ++ ds2).length).map (fun (i : Nat) => Val.int ((i : Int) + 1)) := by
-  obtain ⟨hnd, hsub, hsup⟩ := cfgOk_spec cfg hcfg
+  obtain ⟨hnd, hsub, hsup, hsz⟩ := cfgOk_spec cfg hcfg
+  have hget : ∀ ds, getDocStats ops cls cfg ds = docStatsFrom ops cls cfg 0 (initDocStats cfg) ds := by
+    intro ds; unfold getDocStats; rw [if_neg (by omega)]
+  simp only [hget]
   have hrow : ∀ i d, ∀ p ∈ docRow ops cls cfg i d, p.1 ∈ tkeys (initDocStats cfg) := by
     intro i d p hp
     apply hsub
@@ -420,21 +449,57 @@ theorem C20_doc_stats_concat {T W : Type} (ops : TextOps T W) (cls : WordClass W
     intro i _
     simp
 
-example : cfgOk {} = true := C20_cfg_ok {} (by decide) (by decide)
-example : cfgOk { bps := [700, 50, 50], useStop := true, maxLen := 35 } = true := C20_cfg_ok _ (by decide) (by decide)
+/-- **Document statistics for the calls of the code**: `get_doc_stats` called as in `C20_cfg_ok_code`
+    succeeds on every list of documents, with one entry per document in every column. -/
+theorem C20_doc_stats_code {T W : Type} (ops : TextOps T W) (cls : WordClass W) (bps : Option (List Int))
+    (useStop : Bool) (maxLen : Option Nat) (lbw mb : Option Int)
+    (hb : bps.isSome ∨ lbw.getD lineBinWidth ≠ 0)
+    (hm : (maxLen.getD defaultMaxLen) % wordBinSize = 0) (hpos : 0 < maxLen.getD defaultMaxLen) (ds : List (Doc T)) :
+    ∃ cfg t, docCfgOf bps useStop maxLen lbw mb = .ok cfg ∧ cfgOk cfg = true ∧
+      getDocStatsPy ops cls bps useStop maxLen lbw mb ds = .ok t ∧ getDocStats ops cls cfg ds = .ok t ∧
+      ∀ c ∈ tkeys t, (getCol t c).length = ds.length := by
+  obtain ⟨cfg, hcfg, hok⟩ := C20_cfg_ok_code bps useStop maxLen lbw mb hb hm hpos
+  obtain ⟨t, _, _, h1, _, _, _, _, _, _, hlen, _, _⟩ := C20_doc_stats_concat ops cls cfg hok ds []
+  simp only [List.append_nil] at h1 hlen
+  exact ⟨cfg, t, hcfg, hok, by simp only [getDocStatsPy, hcfg, h1], h1, hlen⟩
 
-/-- a `max_word_length` that is not a multiple of 5 makes `get_word_cat_stats` produce a bin column
+/-- without boundary points and with `line_bin_width=0` the range of the default boundary points raises -/
+theorem C20_doc_stats_zero_bin_width {T W : Type} (ops : TextOps T W) (cls : WordClass W) (useStop : Bool)
+    (maxLen : Option Nat) (mb : Option Int) (ds : List (Doc T)) :
+    getDocStatsPy ops cls none useStop maxLen (some 0) mb ds = .error .ValueError := rfl
+
+/-- the boundary points `get_doc_stats` derives from a positive `line_bin_width` are strictly ascending -/
+theorem C20_default_boundary_points_ascending (lbw mb : Int) (h : 0 < lbw) (l : List Int)
+    (hl : boundaryPointsOf lbw mb = .ok l) : l.Pairwise (· < ·) := pyRange_ascending lbw mb lbw h l hl
+
+example : cfgOk {} = true :=
+  C20_cfg_ok {} consts_bin_size_pos consts_bin_sizes_agree consts_default_max_len_ok.2 consts_default_max_len_ok.1
+example : cfgOk { bps := [700, 50, 50], useStop := true, maxLen := 35, initSize := 7, wordSize := 7 } = true :=
+  C20_cfg_ok _ (by decide) rfl (by decide) (by decide)
+example : boundaryPointsOf 300 1000 = .ok [300, 600, 900] ∧ boundaryPointsOf 4 3 = .ok [] ∧
+    boundaryPointsOf (-2) (-7) = .ok [-2, -4, -6] ∧ boundaryPointsOf 300 1200 = .ok [300, 600, 900] := by decide
+
+/-- a `max_word_length` that is not a multiple of the bin size makes `get_word_cat_stats` produce a bin column
     that `_init_doc_stats` did not create: `get_doc_stats` raises KeyError on the first document
-    (outside the configurations of the statement; observed on the real code, too) -/
+    (outside the configurations of the statement; observed on the real code, too).  Likewise two different
+    bin sizes (here 10 for the columns, 5 for the rows), and a bin size of 0 is a ValueError. -/
 theorem C20_doc_stats_max_len_keyerror :
     getDocStats (T := Nat) (W := Nat) ⟨fun _ => [], fun _ => [], fun _ => true⟩
-      ⟨id, fun _ => true, fun _ => false, fun _ => false, fun _ => false, fun _ => false⟩ { maxLen := 7 }
-      [⟨"d", none, [], []⟩] = .error .KeyError := by decide +kernel
+      ⟨id, fun _ => true, fun _ => false, fun _ => false, fun _ => false, fun _ => false⟩
+      { bps := [], maxLen := 7, initSize := 5, wordSize := 5 } [⟨"d", none, [], []⟩] = .error .KeyError ∧
+    getDocStats (T := Nat) (W := Nat) ⟨fun _ => [], fun _ => [], fun _ => true⟩
+      ⟨id, fun _ => true, fun _ => false, fun _ => false, fun _ => false, fun _ => false⟩
+      { bps := [], maxLen := 30, initSize := 10, wordSize := 5 } [⟨"d", none, [], []⟩] = .error .KeyError ∧
+    getDocStats (T := Nat) (W := Nat) ⟨fun _ => [], fun _ => [], fun _ => true⟩
+      ⟨id, fun _ => true, fun _ => false, fun _ => false, fun _ => false, fun _ => false⟩
+      { bps := [], maxLen := 30, initSize := 0, wordSize := 0 } [⟨"d", none, [], []⟩] = .error .ValueError := by
+  decide +kernel
 
 example : (getDocStats (T := Nat) (W := Nat) ⟨fun n => List.replicate n 3, fun n => List.replicate n 3, fun n => n == 0⟩
-      ⟨id, fun _ => true, fun _ => false, fun _ => false, fun _ => false, fun _ => false⟩ {}
+      ⟨id, fun _ => true, fun _ => false, fun _ => false, fun _ => false, fun _ => false⟩
+      { bps := [300, 600], maxLen := 30, initSize := 5, wordSize := 5 }
       [⟨"d1", some (100, 200), [some 2], [⟨some 4, 120⟩, ⟨none, 10⟩]⟩, ⟨"d2", none, [], []⟩]).toOption.map
-      (fun t => (getCol t Col.numWords, getCol t (Col.elem 0), getCol t (Col.lineWidth (0, some 300)))) =
+      (fun t => (getCol t Col.numWords, getCol t (Col.elem 0), getCol t (Col.lineWidth (rangesStart, some 300)))) =
     some ([Val.int 4, Val.int 0], [Val.int 2, Val.int 0], [Val.int 1, Val.int 0]) := by decide +kernel
 
 /-! ## keyness: direction -/
@@ -532,5 +597,73 @@ example : (0 : ℝ) + 1e-20 ≠ 0 ∧ (0 : ℝ) < (0 + 1e-20) / (0 + 1e-20) :=
 
 example : (0 : ℝ) ≤ score 0 ((2 : Int) : ℝ) ((1 : Int) : ℝ) ((1 : Int) : ℝ) ((3 : Int) : ℝ) :=
   (C20_score_nonneg 0 (le_refl 0) ⟨2, 1, 1, 3⟩ (by decide) (by decide) (by decide) (by decide) (by decide)).2
+
+/-! ## the regenerated literals
+
+What the theorems above need to know about the numbers and names regenerated from the source on every run
+(Generated/C20.lean), each decided in Lemmas/C20Consts.lean; listed here so that the audit names them.
+Everything else holds for every value: every `DocCfg` (boundary points, `max_word_length`, the two bin
+sizes), every `size` / `maxLen` of `wordCatStats`, every regularisation constant `s`. -/
+
+/-- both binning functions are reached with the same bin size (used by `C20_cfg_ok_code`) -/
+theorem C20_consts_bin_sizes_agree : initBinSize = wordBinSize := consts_bin_sizes_agree
+/-- the bin size is positive (used by `C20_cfg_ok_code`) -/
+theorem C20_consts_bin_size_pos : 0 < wordBinSize := consts_bin_size_pos
+/-- the default `max_word_length` is a positive multiple of the bin size (used by `C20_cfg_ok_default`) -/
+theorem C20_consts_default_max_len_ok : 0 < defaultMaxLen ∧ defaultMaxLen % wordBinSize = 0 :=
+  consts_default_max_len_ok
+/-- the default `line_bin_width` is not 0 (used by `C20_cfg_ok_default`) -/
+theorem C20_consts_line_bin_width_ne_zero : lineBinWidth ≠ 0 := consts_line_bin_width_ne_zero
+/-- line-width categories and ranges start at the same point (used by `C20_line_width_partition`) -/
+theorem C20_consts_width_starts_agree : catStart = rangesStart := consts_width_starts_agree
+/-- `get_word_cat_stats` with its own defaults has a positive bin size (`C20_word_length_partition` applies) -/
+theorem C20_consts_word_cat_default_bin_size_pos : 0 < Generated.C20.wordCatDefaultBinSize :=
+  consts_word_cat_default_bin_size_pos
+/-- `_SMALL` is positive (used by `C20_score_code`) -/
+theorem C20_consts_small_pos : 0 < Generated.C20.small.1 ∧ 0 < Generated.C20.small.2 := consts_small_pos
+/-- `8·_SMALL ≤ 1e-9`, the oracle's tolerance for "non-negative" (used by `C20_score_code`) -/
+theorem C20_consts_small_covers_spec : 8 * Generated.C20.small.1 * 1000000000 ≤ Generated.C20.small.2 :=
+  consts_small_covers_spec
+/-- hand-written in the model, tied to the source: the bounds of the two binning loops -/
+theorem C20_consts_loop_bounds : Generated.C20.initBinStopPlus = 1 ∧ Generated.C20.wordLoop = (1, 1) :=
+  consts_loop_bounds
+/-- hand-written in the model, tied to the source: `fields` of `_init_doc_stats` = the fixed columns, named -/
+theorem C20_consts_init_fields : Generated.C20.initFields = fixedCols.map colName := consts_init_fields
+theorem C20_consts_init_fields_nodup : Generated.C20.initFields.Nodup := consts_init_fields_nodup
+/-- hand-written in the model, tied to the source: the keys of the dict of `get_word_cat_stats`, named -/
+theorem C20_consts_word_cat_keys : Generated.C20.wordCatKeys = wordCatCols.map colName := consts_word_cat_keys
+/-- hand-written in `scoreL`, tied to the source: the factor 2 of the score -/
+theorem C20_consts_score_factor : Generated.C20.scoreFactor = 2 := consts_score_factor
+
+/-- `get_word_cat_stats(words)` with its own defaults: the word-length table is a partition -/
+theorem C20_word_length_partition_defaults {W : Type} (cls : WordClass W) (useStop : Bool) (ws : List W)
+    (hpos : ∀ w ∈ ws, 1 ≤ cls.len w) :
+    sumSnd (wordCatStatsPy cls useStop none none ws).bins + (wordCatStatsPy cls useStop none none ws).numOversized
+      = (wordCatStatsPy cls useStop none none ws).numWords :=
+  wordLength_partition cls useStop _ _ consts_word_cat_default_bin_size_pos ws hpos
+
+/-- the code's `_SMALL` as a real number -/
+noncomputable def smallR : ℝ := (Generated.C20.small.1 : ℝ) / (Generated.C20.small.2 : ℝ)
+
+/-- **The score with the code's constant.** With `s = _SMALL` as the source has it now, for every table of
+    non-negative counts with `N > 0`: the score is at least `−1e-9` (what the oracle accepts as
+    non-negative), and every logarithm is taken of a positive real over a non-zero denominator. -/
+theorem C20_score_code (t : Table) (ha : 0 ≤ t.a) (hb : 0 ≤ t.b) (hc : 0 ≤ t.c) (hd : 0 ≤ t.d) (hn : 0 < t.n) :
+    -(1 / 1000000000 : ℝ) ≤ score smallR t.a t.b t.c t.d ∧
+    ∀ o e : ℝ, 0 ≤ o → 0 ≤ e → e + smallR ≠ 0 ∧ 0 < (o + smallR) / (e + smallR) := by
+  have h1 : (0 : ℝ) < (Generated.C20.small.1 : ℝ) := by exact_mod_cast consts_small_pos.1
+  have h2 : (0 : ℝ) < (Generated.C20.small.2 : ℝ) := by exact_mod_cast consts_small_pos.2
+  have hpos : 0 < smallR := div_pos h1 h2
+  have hle : (8 * (Generated.C20.small.1 : ℝ) * 1000000000) ≤ (Generated.C20.small.2 : ℝ) := by
+    exact_mod_cast consts_small_covers_spec
+  have hb8 : 8 * smallR ≤ 1 / 1000000000 := by
+    unfold smallR
+    rw [show 8 * ((Generated.C20.small.1 : ℝ) / (Generated.C20.small.2 : ℝ)) =
+      (8 * (Generated.C20.small.1 : ℝ)) / (Generated.C20.small.2 : ℝ) by ring]
+    rw [div_le_div_iff₀ h2 (by norm_num)]
+    linarith
+  refine ⟨?_, fun o e ho he => C20_score_finite smallR hpos o e ho he⟩
+  have := (C20_score_nonneg smallR (le_of_lt hpos) t ha hb hc hd hn).1
+  linarith
 
 end Pagexml.C20
